@@ -530,7 +530,11 @@ class PropertyCheck:
             if len(reported) >= 4:
                 break
             try:
-                small = self.shrink(case, lambda c: bool(self.oracle_fails(c)))
+                # (a smaller case must still fail in a way that is not a listed finding: shrinking must not turn a new violation into a known one)
+                def still_new(c):
+                    m = self.oracle_fails(c)
+                    return bool(m) and self.match_known(c, m) is None
+                small = self.shrink(case, still_new)
                 smsg = self.oracle_fails(small) or msg
             except Exception:
                 small, smsg = case, msg
